@@ -182,6 +182,18 @@ func (f *SecretFactory) VerifCreateRandom(size int, fill func([]byte) (int, erro
 func VerifDefaultMemcall() memcall.Interface { return memcall.Default }
 '''
 
+HOOK_KMSV1 = '''//go:build verif
+
+package kms
+
+import "github.com/godaddy/asherah/go/appencryption"
+
+// VerifNewAWS builds an AWSKMS from explicit regional clients through the same ordering step as NewAWS.
+func VerifNewAWS(crypto appencryption.AEAD, preferredRegion string, clients []AWSKMSClient) *AWSKMS {
+	return &AWSKMS{Crypto: crypto, Clients: sortClients(preferredRegion, clients)}
+}
+'''
+
 HOOK_MEMGUARD = '''//go:build verif
 
 package memguard
@@ -236,6 +248,8 @@ def make_overlay(tag="ov"):
         put(os.path.join(SECMEM, "protectedmemory/verif_hooks.go"), HOOK_PROTECTED)
     if os.path.isdir(os.path.join(SECMEM, "memguard")):
         put(os.path.join(SECMEM, "memguard/verif_hooks.go"), HOOK_MEMGUARD)
+    if os.path.isdir(os.path.join(APPENC, "plugins/aws-v1/kms")):
+        put(os.path.join(APPENC, "plugins/aws-v1/kms/verif_hooks.go"), HOOK_KMSV1)
     ov = os.path.join(d, "overlay.json")
     with open(ov, "w") as f:
         json.dump({"Replace": repl}, f, indent=1)
